@@ -237,6 +237,36 @@ def guided_case(rng, objs, max_nodes=6):
     return expr, names, cls
 
 
+def mixed_groups():
+    """The family `(A,B)*.tail` / `(B,A)*.tail`: a starred comma group in first position whose
+    alternatives start differently -- A at the model root (a navigation), B at the referencing
+    object (dots, parent(T)) -- followed by one name-consuming navigation."""
+    sr = [dict(k="nav", attr=a, mode="all", fixed="-") for a in ATTRS] + \
+         [dict(k="nav", attr=a, mode="consume", fixed="-") for a in ("packages", "classes")]
+    sl = [dict(k="dots", n=2), dict(k="dots", n=3), dict(k="parent", type="Package"), dict(k="parent", type="Class")]
+    out = []
+    for a in sr:
+        for b in sl:
+            for order in (0, 1):
+                for t in ATTRS:
+                    alts = [dict(els=[a]), dict(els=[b])]
+                    if order:
+                        alts.reverse()
+                    out.append(dict(paths=[dict(els=[dict(k="star", e=dict(k="br", paths=alts)),
+                                                     dict(k="nav", attr=t, mode="consume", fixed="-")])]))
+    return out
+
+
+def own_collection_names(rng, objs, attr):
+    """a name (and class) found in some object's own collection `attr`: for expressions whose
+    zero-fold expansion looks into the referencing object itself"""
+    own = [(i, x) for i, o in enumerate(objs, 1) for x in o["attrs"][attr]["els"]]
+    if not own:
+        return None
+    i, x = rng.choice(own)
+    return [objs[x - 1]["name"]], objs[x - 1]["cls"]
+
+
 def size(expr):
     def el(e):
         if e["k"] == "star":
@@ -370,12 +400,12 @@ class Judge:
         self.pending = []      # (case, obs, query)
         self.notes = {}
 
-    def _case(self, ctx, start, way, flags):
+    def _case(self, ctx, start, way, flags, delim):
         return dict(expr=D.expr_text(ctx["expr"], flags), model=ctx["model"], start=start,
-                    name=".".join(ctx["names"]), cls=ctx["cls"], way=way)
+                    name=delim.join(ctx["names"]), delim=delim, cls=ctx["cls"], way=way)
 
-    def observe(self, ctx, start, way, flags, obs, ans):
-        case = self._case(ctx, start, way, flags)
+    def observe(self, ctx, start, way, flags, obs, ans, delim="."):
+        case = self._case(ctx, start, way, flags, delim)
         nontrivial = bool(ans["allowed"])
         full = dict(case=case, objs=ctx["objs"], ast=ctx["expr"], names=ctx["names"], flags=flags,
                     observed=obs, allowed=ans["allowed"], alt=ans["alt"], acc=ans["acc"])
@@ -462,19 +492,24 @@ def run_batch(rep, real, judge, ctxs, ways_for, label):
                 ok, text = real.parse_check(c["expr"], flags)
                 if not ok:
                     raise tlc.MachineryError(f"renderer self-check failed for {text!r}")
-            for start in range(1, len(c["objs"]) + 1):
-                for flags in c["flags"]:
+            # one expression text at a time, every referencing object in turn: a registered provider
+            # object serves all these loads, the name being written with '.' (match rule QName) and
+            # with '/' (match rule SName[split='/']) alternately
+            for flags in c["flags"]:
+                for start in range(1, len(c["objs"]) + 1):
+                    delim = "/" if (c["id"] + start) % 2 else "."
                     for way in ways_for(c, start, flags):
                         if way == "find":
-                            obs = real.find(c["model"], c["objs"], start, c["names"], c["cls"], c["expr"], flags)
+                            obs = real.find(c["model"], c["objs"], start, c["names"], c["cls"], c["expr"], flags,
+                                            delim)
                         else:
-                            obs = real.load(way, c["objs"], start, c["names"], c["cls"], c["expr"], flags)
-                        observed.append((c, start, way, flags, obs))
+                            obs = real.load(way, c["objs"], start, c["names"], c["cls"], c["expr"], flags, delim)
+                        observed.append((c, start, way, flags, obs, delim))
         t1 = time.time()
         answers = fut.result()
     t2 = time.time()
-    for c, start, way, flags, obs in observed:
-        judge.observe(c, start, way, flags, obs, answers[c["id"]][start])
+    for c, start, way, flags, obs, delim in observed:
+        judge.observe(c, start, way, flags, obs, answers[c["id"]][start], delim)
     judge.flush(label + "/paths")
     rep.extra["phase_wall_s"] = dict(real_code=round(t1 - t0, 1), real_code_cpu=round(time.process_time() - c0, 1),
                                      waiting_for_oracle=round(t2 - t1, 1), judging_and_paths=round(time.time() - t2, 1))
@@ -499,7 +534,7 @@ def _mc(rep, quick):
         rep.note("VT_SKIP_MC set: (M) skipped")
         return
     invs = ["Terminates", "FixpointWithinBound", "Monotone", "UpIsDotsStar", "ExpansionsIncluded",
-            "DevOnlyRemoves", "ProxyEndsInTarget"]
+            "DevOnlyRemoves", "ProxyEndsInTarget", "ZeroRepetition"]
     cfgs = ["MC_Rrel.cfg"] if quick else ["MC_Rrel_Wide.cfg", "MC_Rrel_Thorough.cfg"]
     for cfg in cfgs:
         r = tlc.model_check("MC_Rrel", cfg=cfg, timeout=3000)
@@ -561,6 +596,26 @@ def _contexts(rep, rng, quick):
         objs = models[mk]
         for names in all_names(model_alphabet(objs)[:2]):
             ctxs.append(dict(model=mk, objs=objs, expr=e, names=names, cls="Class", flags=[""], src="allnames"))
+    # the family of starred groups with mixed start kinds in first position, each in a context
+    # where some object owns a matching element in the collection navigated after the group
+    fam = mixed_groups()
+    n_fam = 0
+    for e in fam:
+        if scale < 1 and rng.random() > scale:
+            continue
+        tail = e["paths"][0]["els"][1]["attr"]
+        for _ in range(1 if quick else 3):
+            mk = rng.choice(keys)
+            objs = models[mk]
+            nc = own_collection_names(rng, objs, tail)
+            if nc is None:
+                continue
+            ex = e
+            if rng.random() < 0.3:            # followed by a second alternative that also looks further up
+                ex = dict(paths=e["paths"] + [dict(els=[dict(k="up"), e["paths"][0]["els"][1]])])
+            ctxs.append(dict(model=mk, objs=objs, expr=ex, names=nc[0], cls=nc[1], flags=["", "p"], src="mixed"))
+            n_fam += 1
+    rep.bounds["mixed_start_groups"] = dict(family=len(fam), contexts=n_fam)
     # (I->S) walk-guided random expressions of up to ~8 nodes, small and big models
     nguided = int((900 if quick else 12000) * scale)
     allm = dict(models)
@@ -590,14 +645,18 @@ def run(rep):
     quick = rep.tier == "quick"
     rng = random.Random(rep.seed)
     rep.rule = ("one case = (RREL expression, +p: or not, model, referencing object, dotted name, target class, "
-                "way of calling the real code: rrel.find / RREL in the grammar / RREL string as scope provider). "
+                "name delimiter '.' or '/' (match rule with split='/'), "
+                "way of calling the real code: rrel.find / RREL in the grammar / RREL string as scope provider, one "
+                "provider object registered under '*.*' serving all referencing objects and both delimiters of an "
+                "expression in turn). "
                 "S->I: every RREL AST up to the node bound in seeded contexts, every object of the model as "
                 "referencing object; I->S: walk-guided and uniformly random expressions up to ~8 nodes on "
                 "models of up to 12 objects. Non-trivial: the module lets the reference resolve (Allowed # {}); "
                 "distinct by content.")
     rep.assumptions = [
         "single model, all other references of the model resolved before the RREL is evaluated (no Postponed, no +m:)",
-        "object names are strings; the separator is '.'; every name part is non-empty",
+        "object names are strings; every name part is non-empty; the name is written with '.' (match rule QName) "
+        "or '/' (match rule SName[split='/']) -- the module sees the name parts, the delimiter is a rendering choice",
         "a name-matching step takes the first element of the collection with that name (Appendix G); "
         "sibling names are unique in the quick tier",
         "the exact object among several accepted ones and the depth-first order are not judged",
@@ -632,10 +691,11 @@ def replay(path):
     print("model:\n" + D.model_text(objs))
     print("expression:", D.expr_text(expr, flags), " name:", ".".join(names), " target class:", case["cls"],
           " referencing object:", case["start"], " way:", case["way"])
+    delim = case.get("delim", ".")
     if case["way"] == "find":
-        obs = real.find("replay", objs, case["start"], names, case["cls"], expr, flags)
+        obs = real.find("replay", objs, case["start"], names, case["cls"], expr, flags, delim)
     else:
-        obs = real.load(case["way"], objs, case["start"], names, case["cls"], expr, flags)
+        obs = real.load(case["way"], objs, case["start"], names, case["cls"], expr, flags, delim)
     print("observed:", obs)
     res, _ = tlc.oracle("RrelOracle", [dict(id=0, q="reach", objs=objs, expr=expr, names=names, cls=case["cls"],
                                             starts=[case["start"]])])
@@ -663,7 +723,8 @@ META = dict(
                 "module as oracle for enumerated and seeded-random (expression, model, name) cases whose outcome in "
                 "the real code -- called as rrel.find, as RREL in the grammar and as registered scope provider -- "
                 "is compared for soundness, completeness, precedence and the `+p:` path."),
-    level_note=("Exhaustive only over ASTs of <= 2 (quick) / <= 3 (thorough) nodes, each in seeded contexts; larger "
+    level_note=("Exhaustive only over ASTs of <= 2 (quick) / <= 3 (thorough) nodes and the 192 leading starred groups "
+                "with mixed start kinds, each in seeded contexts; larger "
                 "expressions and models are seeded-random. Single model, no +m:, no Postponed. Which of several "
                 "accepted objects is returned is not judged."),
     technique="TLC model checking of Rrel.tla theorems + TLC-evaluated oracle (Reach/Allowed/PathWitness) vs. real code",
